@@ -22,7 +22,10 @@ Proof. unfold move_op. by intros ->. Qed.
 Lemma move_go_facts env m s d sp dt : move_validate env m s d = MvGo sp dt →
   is_Some (m_ents m !! sp) ∧ dt ≠ sp ∧ is_under dt sp = false ∧
   ∃ b ddir x, dt = b :: ddir ∧ m_ents m !! ddir = Some x ∧ e_dir x = true ∧ e_link x = false ∧
-    match m_ents m !! dt with Some y => default ∅ (e_files y) = ∅ | None => True end.
+    match m_ents m !! dt with
+    | Some y => default ∅ (e_files y) = ∅ ∧ (is_dir_at m sp = true → e_dir y = true ∧ e_link y = false)
+    | None => True
+    end.
 Proof.
   unfold move_validate. destruct (resolve env m s) as [sp0|]; [|done]. destruct (resolve env m d) as [dp|]; [|done].
   destruct (m_ents m !! sp0) eqn:Es; [|done].
@@ -32,10 +35,16 @@ Proof.
   destruct (is_under (b :: ddir) sp0) eqn:Eu; [done|].
   destruct (m_ents m !! ddir) as [x|] eqn:Ex; [|done].
   destruct (negb (e_dir x && negb (e_link x))) eqn:Ed; [done|].
-  destruct (match m_ents m !! (b :: ddir) with Some y => _ | None => false end) eqn:Eb; [done|].
-  intros H. simplify_eq. split; [eauto|]. split; [done|]. split; [done|].
-  apply negb_false_iff, andb_true_iff in Ed as [Hd Hl]. apply negb_true_iff in Hl.
-  exists b, ddir, x. repeat split; try done.
-  destruct (m_ents m !! (b :: ddir)) as [y|]; [|done]. destruct (e_files y) as [fs|]; [|done]. cbn.
-  apply negb_false_iff, bool_decide_eq_true in Eb. done.
+  destruct (m_ents m !! (b :: ddir)) as [y|] eqn:Ey.
+  - destruct (is_dir_at m sp0 && negb (e_dir y && negb (e_link y))) eqn:Ec; [done|].
+    destruct (negb (is_dir_at m sp0) && (e_dir y && negb (e_link y))) eqn:Ec2; [done|].
+    destruct (match e_files y with Some fs => _ | None => false end) eqn:Eb; [done|].
+    intros H. simplify_eq. split; [eauto|]. split; [done|]. split; [done|].
+    apply negb_false_iff, andb_true_iff in Ed as [Hd Hl]. apply negb_true_iff in Hl.
+    exists b, ddir, x. repeat split; try done. rewrite Ey. split.
+    + destruct (e_files y) as [fs|]; [|done]. cbn. apply negb_false_iff, bool_decide_eq_true in Eb. done.
+    + intros H. rewrite H in Ec. cbn in Ec. apply negb_false_iff, andb_true_iff in Ec as [Hd' Hl']. by apply negb_true_iff in Hl'.
+  - intros H. simplify_eq. split; [eauto|]. split; [done|]. split; [done|].
+    apply negb_false_iff, andb_true_iff in Ed as [Hd Hl]. apply negb_true_iff in Hl.
+    exists b, ddir, x. rewrite Ey. repeat split; done.
 Qed.
